@@ -25,6 +25,9 @@
 package main
 
 import (
+	"os"
+	"strings"
+
 	"verif/checks/c20"
 	"verif/checks/c20b"
 	"verif/core"
@@ -32,8 +35,18 @@ import (
 )
 
 func run(c *core.Ctx) {
-	c20.Run(c)  // family A: runtime helpers
-	c20b.Run(c) // family B: generated servers and clients
+	// VERIF_C20_FAMILIES=A or B restricts the run (development aid for the mutant self-tests;
+	// such a run is reported as incomplete)
+	fam := strings.ToUpper(os.Getenv("VERIF_C20_FAMILIES"))
+	if fam != "" && fam != "AB" {
+		c.Incomplete("restricted to family " + fam + " (VERIF_C20_FAMILIES)")
+	}
+	if fam == "" || strings.Contains(fam, "A") {
+		c20.Run(c) // family A: runtime helpers
+	}
+	if fam == "" || strings.Contains(fam, "B") {
+		c20b.Run(c) // family B: generated servers and clients
+	}
 }
 
 func replay(c *core.Ctx, path string) {
